@@ -16,7 +16,7 @@ def claim(pid, technique, text, note, ref, category='model_checking'):
 
 
 claim('C18', 'exhaustive enumeration of all pairs/triples of a version-string alphabet against a reference key order',
-      'Complete enumeration of every ordered pair over 775 version strings (6 operators x 3 operand forms, eq=>hash, '
+      'Complete enumeration of every ordered pair over 1240 version strings (plus a suffix-rich second alphabet of 108; operands and shared constants must be left unchanged) (6 operators x 3 operand forms, eq=>hash, '
       'set/dict interchangeability), every triple over a sub-alphabet, nearest() on every string in reference order and the '
       'version-keyed grammar caches, all on the real Version class. A total order is a for-all-pairs/triples law; inside the '
       'alphabet nothing is sampled.',
@@ -24,7 +24,7 @@ claim('C18', 'exhaustive enumeration of all pairs/triples of a version-string al
       'alphabet (more than 3 groups, other suffixes, invalid strings) are not covered.',
       'DESIGN.md 5 C18')
 
-RT_NOTE = ('Trusts ref/neutral.py, ref/observe.py, ref/catalogue.py%s. Bounds: the 258-payload catalogue, <= 2 payloads deviating '
+RT_NOTE = ('Trusts ref/neutral.py, ref/observe.py, ref/catalogue.py%s. Bounds: the 333-payload catalogue, <= 2 deviations (payloads, absent key, trims, map history, version declared by string/constant/detected, name sets) '
            'from the benign default at once (8 slots of a fixed skeleton: grid meta, column meta, two cells, list element, dict value, '
            'nested-grid cell and meta), 1-2 grids per document, nesting <= 3; pint mode not explored.')
 
@@ -61,7 +61,7 @@ claim('C20', 'exhaustive enumeration of operator x operand pair x operand shape 
 HIST_NOTE = ('Trusts the reference model named in the text and the canonical state key (model state + hidden implementation state read through '
              'getattr probes; an unknown hidden state is never merged). Bounds are the operation alphabet, the row/key universe and the depth '
              'given in evidence coverage.bounds; longer histories and larger grids are not covered.')
-claim('C10', 'explicit-state BFS over entry-path histories on the real Grid with a gating invariant; exhaustive agreement matrix over deciders',
+claim('C10', 'explicit-state BFS over entry-path histories (incl. observation reads, copies, earlier activity from the import-time module state) on the real Grid with a gating invariant; exhaustive agreement matrix over deciders',
       'Breadth-first search over histories of all 13 entry paths x 7 value kinds from 154 roots (7 declared versions x constructor variants) on a '
       'real Grid: after every step the gating invariant (explicit pre-3.0 version => ValueError and no 3.0-only value reachable; no version given '
       '=> reports >= 3.0 as soon as one is reachable) and both writers (refuse with ValueError or declare >= 3.0) are evaluated; every state\'s slices and filter results obey the same invariant; plus the complete '
@@ -129,7 +129,7 @@ claim('C09', 'complete one-step mutation closure and short-string enumeration fe
       'grid; when hszinc and the strict reference reader both accept, the grids must agree.',
       'The scanner is sound but incomplete; texts hszinc accepts leniently (reference rejects, scanner silent) are counted, not alarmed. Nesting depth '
       '<= 3. Trusts ref/refzinc.py for the agreement oracle.', 'DESIGN.md 5 C09')
-claim('C17', 'complete enumeration of zone x transition instant x offset x microsecond x format round trips against pytz',
+claim('C17', 'complete enumeration of zone x transition instant x offset x microsecond x format round trips against pytz; fault injection at every position of the lazily built zone map',
       'Every zone hszinc maps on this host (measured, 366 here) x every pytz transition instant between 1850 and 2100 (thorough; first 2 + last 6 per zone '
       'quick) x {-30 min, -1 s, 0, +1 s, +30 min} x microseconds x {ZINC, JSON}: the value read back must denote the same instant, the same UTC '
       'offset and the same zone; the name<->tz map must be injective, mutually inverse and name = city of its tz. Foreign tzinfo: fixed offsets for '
@@ -158,7 +158,7 @@ claim('C11', 'exhaustive enumeration of filter ASTs (all and/or trees, all atoms
       'Oracle ref/reffilter.py is three-valued (DESIGN.md Appendix C): where the statement does not fix the answer the atom is a don\'t-care and a row '
       'is compared only when the whole formula is definite; an exception on a definite row is a violation. Larger trees and other literals are not '
       'covered.', 'DESIGN.md 5 C11')
-claim('C12', 'complete product of canary payloads x grammar positions x enclosing shapes under audit-hook, canary, stdout, semantic-probe and global-state monitors',
+claim('C12', 'complete product of canary payloads x grammar positions x enclosing shapes under audit-hook, wrapped global setters, canary, stdout, semantic-probe and global-state monitors',
       '24 callable names (builtins, hszinc internals, a planted canary) as extended-string type with effectful arguments, 16 quote/backslash/newline '
       'break-out strings and 21 builtin/keyword-like names are placed in every literal and identifier position of the filter grammar (xstr type and '
       'payload alone / in a list / in a dict / after a path, string, URI, reference name and display, list element, dict key and value, tag name, path '
@@ -168,7 +168,7 @@ claim('C12', 'complete product of canary payloads x grammar positions x enclosin
       'os.environ / cwd / hszinc module globals, a modified grid; 57 texts that are not filters must be rejected with pyparsing\'s ParseException.',
       'Effects no monitor can observe (pure computation whose value no probe row matches) are outside the check. Payloads are inert by construction.',
       'DESIGN.md 5 C12')
-claim('C13', 'exhaustive preemption-bounded enumeration of thread interleavings of the real code under a settrace scheduler; exhaustive short cache histories',
+claim('C13', 'exhaustive preemption-bounded enumeration of thread interleavings of the real code under a settrace scheduler; exhaustive short cache and data-change histories',
       'Real threads run the real Grid.filter under a deterministic scheduler whose scheduling points are the source lines of the non-lambda functions '
       'of hszinc/grid_filter.py and of Grid.filter; ALL interleavings with at most the stated number of preemptions are executed for 5 thread plans '
       '(2 and 3 threads, distinct and identical filters, cache capacity real / 1 / 2): quick = bound 2 for two distinct filters, 1 otherwise; thorough '
